@@ -14,6 +14,10 @@ func Child(args []string) int {
 	case "c10":
 		n, _ := strconv.Atoi(args[2])
 		return ChildC10(args[1], n)
+	case "c14lib":
+		seed, _ := strconv.ParseUint(args[1], 10, 64)
+		rounds, _ := strconv.Atoi(args[2])
+		return ChildC14Lib(seed, rounds)
 	}
 	fmt.Println("unknown child kind", args[0])
 	return 2
